@@ -40,7 +40,7 @@ Proof. vm_compute; reflexivity. Qed.
    the logger and the (mutex-protected, see fix 7fd...) progress bar.  A new field reachable from
    every worker is shared state the model knows nothing about. *)
 Example tie_worker_fields :
-  pool_worker_fields = ["*objects.Table"; "<-chan *sorter.Block"; "[]asyncBlock"; "chan error"; "logr.Logger"; "objects.Store"; "pbar.Bar"; "sync.Mutex"; "sync.WaitGroup"; "uint32"].
+  pool_worker_fields = ["*objects.Table"; "<-chan *sorter.Block"; "[]asyncBlock"; "chan error"; "logr.Logger"; "mutex"; "objects.Store"; "pbar.Bar"; "sync.WaitGroup"; "uint32"].
 Proof. vm_compute; reflexivity. Qed.
 (* the progress tracker delivers ticks with a send that also listens to done *)
 Example tie_progress_tick : progress_ok progress_tick_send = true.
